@@ -344,7 +344,89 @@ pub struct Flat {
     pub d: bool,
 }
 
+/// `OrderedAM` (UDT side only): enforce_order with `allow_missing` on a, b and d.
+#[derive(SerializeValue, DeserializeValue, Debug, PartialEq, Default, Clone)]
+#[scylla(crate = scylla_cql, flavor = "enforce_order")]
+pub struct OrderedAMUdt {
+    #[scylla(allow_missing)]
+    pub a: i32,
+    #[scylla(allow_missing)]
+    pub b: String,
+    pub c: i64,
+    #[scylla(allow_missing)]
+    pub d: bool,
+}
+
+/// `NameAM` (UDT side only): match_by_name with `allow_missing` on b and d, both directions.
+#[derive(SerializeValue, DeserializeValue, Debug, PartialEq, Default, Clone)]
+#[scylla(crate = scylla_cql)]
+pub struct NameAMUdt {
+    pub a: i32,
+    #[scylla(allow_missing)]
+    pub b: String,
+    pub c: i64,
+    #[scylla(allow_missing)]
+    pub d: bool,
+}
+
+/// `OrderedRenamedSkip`: enforce_order + rename + skip. All four derives.
+#[derive(
+    SerializeValue, DeserializeValue, SerializeRow, DeserializeRow, Debug, PartialEq, Default, Clone,
+)]
+#[scylla(crate = scylla_cql, flavor = "enforce_order")]
+pub struct OrderedRenamedSkip {
+    pub a: i32,
+    #[scylla(rename = "bb")]
+    pub b: String,
+    #[scylla(skip)]
+    pub c: i64,
+    pub d: bool,
+}
+
+/// `Flat2` (row serialization only): two levels of `flatten`.
+#[derive(SerializeRow, Debug, PartialEq, Default, Clone)]
+#[scylla(crate = scylla_cql)]
+pub struct Inn2 {
+    pub c: i64,
+}
+#[derive(SerializeRow, Debug, PartialEq, Default, Clone)]
+#[scylla(crate = scylla_cql)]
+pub struct Mid2 {
+    #[scylla(flatten)]
+    pub inn: Inn2,
+    pub b: String,
+}
+#[derive(SerializeRow, Debug, PartialEq, Default, Clone)]
+#[scylla(crate = scylla_cql)]
+pub struct Flat2 {
+    #[scylla(flatten)]
+    pub mid: Mid2,
+    pub a: i32,
+    pub d: bool,
+}
+
+impl Abs4 for Flat2 {
+    fn build(vals: &Vals) -> Result<Self, String> {
+        Ok(Flat2 {
+            mid: Mid2 { inn: Inn2 { c: field(vals, "c")? }, b: field(vals, "b")? },
+            a: field(vals, "a")?,
+            d: field(vals, "d")?,
+        })
+    }
+    fn report(&self) -> Value {
+        json!({
+            "a": self.a.to_v().to_json(),
+            "b": self.mid.b.to_v().to_json(),
+            "c": self.mid.inn.c.to_v().to_json(),
+            "d": self.d.to_v().to_json(),
+        })
+    }
+}
+
 impl_abs4!(
+    OrderedAMUdt,
+    NameAMUdt,
+    OrderedRenamedSkip,
     Plain,
     Same,
     Opt,
